@@ -17,9 +17,9 @@ import (
 
 func init() {
 	core.Register(&core.Check{
-		ID:    "C17",
-		Level: "exploration",
-		Rule: "every bytecode program emitted for (a) random programs of the compiler's subset, (b) stress shapes (loops nested 6 deep with a break and block-local variables at every level and in sibling blocks, 10^4-iteration loops) and (c) programs just below and above every 16-bit limit (constants, instruction bytes/jump distances, array and map literal lengths, globals, locals) is statically verified (decodable, operands in range, jump targets on boundaries, one abstract stack height per instruction, never negative, empty at the end) and executed under the VM trace hook (sp >= LocalCount, sp equals the statically computed height at every instruction, sp == LocalCount at the end, no Go panic) with a shadow-slot monitor (a read compiled for variable v must see a slot last written for v); (d) random Push/Pop/Define/Resolve histories on the symbol table against a scope-stack model. distinct = distinct program texts / histories",
+		ID:          "C17",
+		Level:       "exploration",
+		Rule:        "every bytecode program emitted for (a) random programs of the compiler's subset, (b) stress shapes (loops nested 6 deep with a break and block-local variables at every level and in sibling blocks, 10^4-iteration loops) and (c) programs just below and above every 16-bit limit (constants, instruction bytes/jump distances, array and map literal lengths, globals, locals) is statically verified (decodable, operands in range, jump targets on boundaries, one abstract stack height per instruction, never negative, empty at the end) and executed under the VM trace hook (sp >= LocalCount, sp equals the statically computed height at every instruction, sp == LocalCount at the end, no Go panic) with a shadow-slot monitor (a read compiled for variable v must see a slot last written for v); (d) random Push/Pop/Define/Resolve histories on the symbol table against a scope-stack model. distinct = distinct program texts / histories",
 		Assumptions: []string{"closed-form verifier; no reference interpreter involved"},
 		NumCases: func(tier string) int {
 			if tier == "thorough" {
